@@ -1,5 +1,5 @@
 """C05 — circuits stay well-formed and order-preserving under any edit history (DESIGN 5/C05)."""
-import collections, json
+import collections, json, random
 from .. import env, coq, runner
 
 LEVEL = 'proof'
@@ -159,7 +159,8 @@ def spec_invertible(spec):
 class World:
     def __init__(self, cirq, vocab, ops=None):
         self.cirq, self.v = cirq, vocab
-        self.ops = {}        # uid -> spec
+        self.ops = {}        # uid -> spec (current: transform_qubits retargets the operations it touched)
+        self.ops0 = {}       # uid -> spec at creation (what a replay starts from)
         self.objs = {}       # uid -> cirq operation
         self.c = cirq.Circuit()
         for uid, spec in (ops or {}).items():
@@ -167,7 +168,17 @@ class World:
 
     def add_op(self, uid, spec):
         self.ops[uid] = spec
+        self.ops0[uid] = spec
         self.objs[uid] = self.v.build(uid, spec)
+
+    def retarget(self, qmap):
+        """transform_qubits succeeded: the operations now in the circuit live on other qubits; the uid keeps denoting them."""
+        for m in self.c.moments:
+            for op in m.operations:
+                u = self.v.uid_of(op)
+                a = abs(u)
+                self.ops[a] = dict(self.ops[a], q=[q.x for q in op.qubits])
+                self.objs[a] = op if u > 0 else op ** -1
 
     def op(self, uid):
         if uid < 0:      # the inverse of a U operation
@@ -206,10 +217,25 @@ def canon_err(e):
     return ('err', ERRS.get(type(e).__name__, 'OtherError'))
 
 
+QUERIES = ('q_all_qubits', 'q_freeze', 'q_len', 'q_is_meas', 'q_is_param', 'q_pnames', 'q_keys', 'q_next', 'q_prev', 'q_eam', 'q_op_at')
+BASIC = ('empty', 'new', 'insert', 'append') + QUERIES
+ATOMIC = ('bremove', 'breplace', 'binto', 'binsert')      # documented all-or-nothing
+REPLACING = ('new', 'copy', 'with_tags', 'slice', 'add', 'radd', 'mul', 'inv', 'transform', 'zip', 'concat')
+
+
+def circuit_of(w, moms, frozen=False):
+    cirq = w.cirq
+    c = cirq.Circuit([cirq.Moment([w.op(u) for u in m]) for m in moms])
+    return c.freeze() if frozen else c
+
+
 # ---- running one call on the implementation -> canonical result -----------------------------------
 def exec_call(w, call):
     """Runs the call on the real code; returns a canonical result tuple.  Construction calls replace w.c."""
     cirq, k = w.cirq, call['c']
+    fz = call.get('frozen', False)
+    me = (lambda: w.c.freeze()) if fz else (lambda: w.c)
+    back = (lambda r: r.unfreeze()) if fz else (lambda r: r)
     try:
         if k == 'empty':
             w.c = cirq.Circuit()
@@ -218,17 +244,83 @@ def exec_call(w, call):
             w.c = cirq.Circuit(w.items(call['items']), strategy=strat(cirq, call['s']))
             return ('none',)
         if k == 'copy':
-            w.c = w.c.copy()
+            via = call.get('via', 'copy')
+            w.c = w.c.copy() if via == 'copy' else (w.c.freeze().unfreeze() if via == 'freeze' else w.c.unfreeze())
             return ('none',)
         if k == 'with_tags':
             w.c = w.c.with_tags('t')
+            return ('none',)
+        if k == 'slice':
+            w.c = back(me()[call['a']:call['b']])
+            return ('none',)
+        if k == 'add':
+            other = circuit_of(w, [it['m'] for it in call['items']], call.get('ofrozen', False)) if call.get('circ') else w.items(call['items'])
+            w.c = back(me() + other)
+            return ('none',)
+        if k == 'radd':
+            w.c = back(w.items(call['items']) + me())
+            return ('none',)
+        if k == 'mul':
+            w.c = back(call['n'] * me() if call.get('r') else me() * call['n'])
+            return ('none',)
+        if k == 'inv':
+            w.c = back(me() ** -1)
+            return ('none',)
+        if k == 'transform':
+            w.c = w.c.transform_qubits({w.v.q(a): w.v.q(b) for a, b in call['f']})
+            w.retarget(call['f'])
+            return ('none',)
+        if k in ('zip', 'concat'):
+            others = [circuit_of(w, o, i % 2 == 1 and call.get('ofrozen', False)) for i, o in enumerate(call['others'])]
+            f = (lambda c: c.zip) if k == 'zip' else (lambda c: c.concat_ragged)
+            align = call['align'] if call.get('astr') else getattr(cirq.Alignment, call['align'])
+            w.c = back(f(me())(*others, align=align))
             return ('none',)
         if k == 'insert':
             r = w.c.insert(call['i'], w.items(call['items']), strat(cirq, call['s']))
             return ('int', int(r))
         if k == 'append':
+            if call.get('iadd') and call['s'] == 'EARLIEST':
+                w.c += w.items(call['items'])
+                return ('none',)
             r = w.c.append(w.items(call['items']), strat(cirq, call['s']))
             assert r is None
+            return ('none',)
+        if k == 'range':
+            return ('int', int(w.c.insert_into_range(w.items(call['items']), call['s'], call['e'])))
+        if k == 'frontier':
+            f = None if call['f'] is None else collections.defaultdict(int, {w.v.q(q): i for q, i in call['f']})
+            r = w.c.insert_at_frontier(w.items(call['items']), call['start'], f)
+            return ('front', sorted((q.x, int(i)) for q, i in r.items()))
+        if k == 'bremove':
+            w.c.batch_remove([(i, w.op(u)) for i, u in call['rs']])
+            return ('none',)
+        if k == 'breplace':
+            w.c.batch_replace([(i, w.op(u), w.op(n)) for i, u, n in call['rs']])
+            return ('none',)
+        if k == 'binto':
+            w.c.batch_insert_into([(i, [w.op(u) for u in us]) for i, us in call['rs']])
+            return ('none',)
+        if k == 'binsert':
+            w.c.batch_insert([(i, w.items(its)) for i, its in call['ins']])
+            return ('none',)
+        if k == 'clear':
+            w.c.clear_operations_touching([w.v.q(q) for q in call['q']], call['idx'])
+            return ('none',)
+        if k == 'setitem':
+            w.c[call['i']] = cirq.Moment([w.op(u) for u in call['m']])
+            return ('none',)
+        if k == 'setslice':
+            w.c[call['a']:call['b']] = [cirq.Moment([w.op(u) for u in m]) for m in call['ms']]
+            return ('none',)
+        if k == 'delitem':
+            del w.c[call['i']]
+            return ('none',)
+        if k == 'delslice':
+            del w.c[call['a']:call['b']]
+            return ('none',)
+        if k == 'imul':
+            w.c *= call['n']
             return ('none',)
         if k == 'q_all_qubits':
             return ('set', sorted(q.x for q in w.c.all_qubits()))
@@ -236,6 +328,23 @@ def exec_call(w, call):
             return ('moms', w.moments_uids(w.c.freeze()))
         if k == 'q_len':
             return ('int', len(w.c))
+        if k == 'q_is_meas':
+            return ('bool', bool(cirq.is_measurement(w.c)))
+        if k == 'q_is_param':
+            return ('bool', bool(cirq.is_parameterized(w.c)))
+        if k == 'q_pnames':
+            return ('set', sorted(int(n[1:]) for n in cirq.parameter_names(w.c)))
+        if k == 'q_keys':
+            return ('set', sorted(int(str(key)[1:]) for key in w.c.all_measurement_key_objs()))
+        if k == 'q_next':
+            return ('opt', w.c.next_moment_operating_on([w.v.q(q) for q in call['q']], call['start'], call['maxd']))
+        if k == 'q_prev':
+            return ('opt', w.c.prev_moment_operating_on([w.v.q(q) for q in call['q']], call['e'], call['maxd']))
+        if k == 'q_eam':
+            return ('int', int(w.c.earliest_available_moment(w.op(call['op']), end_moment_index=call['e'])))
+        if k == 'q_op_at':
+            o = w.c.operation_at(w.v.q(call['q']), call['i'])
+            return ('opt', None if o is None else w.v.uid_of(o))
     except (ValueError, IndexError, TypeError) as e:
         return canon_err(e)
     raise AssertionError(f'unknown call {k}')
@@ -255,30 +364,88 @@ def coq_moment(w, uids):
     return '[' + '; '.join(coq_op(w, u) for u in uids) + ']'
 
 
+def coq_moments(w, ms):
+    return '[' + '; '.join(coq_moment(w, m) for m in ms) + ']'
+
+
 def coq_items(w, its):
     return '[' + '; '.join(f'IMom {coq_moment(w, it["m"])}' if isinstance(it, dict) else f'IOp {coq_op(w, it)}' for it in its) + ']'
 
 
+def coq_optz(x):
+    return 'None' if x is None else f'(Some {Z(x)})'
+
+
+def coq_fmap(f):
+    return '[' + '; '.join(f'({Z(a)}, {Z(b)})' for a, b in f) + ']'
+
+
 def coq_call(w, call):
     k = call['c']
+    I = lambda: coq_items(w, call['items'])
     if k == 'empty':
         return 'CEmpty'
     if k == 'new':
-        return f'CNew {coq_items(w, call["items"])} {call["s"]}'
+        return f'CNew {I()} {call["s"]}'
     if k == 'copy':
         return 'CCopy'
     if k == 'with_tags':
         return 'CWithTags'
+    if k == 'slice':
+        return f'CSlice {coq_optz(call["a"])} {coq_optz(call["b"])}'
+    if k == 'add':
+        return f'CAdd {I()}'
+    if k == 'radd':
+        return f'CRAdd {I()}'
+    if k == 'mul':
+        return f'CMul {Z(call["n"])}'
+    if k == 'inv':
+        return 'CInv'
+    if k == 'transform':
+        return f'CTransform {coq_fmap(call["f"])}'
+    if k in ('zip', 'concat'):
+        others = '[' + '; '.join(coq_moments(w, o) for o in call['others']) + ']'
+        return f'{"CZip" if k == "zip" else "CConcatRagged"} {others} {call["align"].upper()}'
     if k == 'insert':
-        return f'CInsert {Z(call["i"])} {coq_items(w, call["items"])} {call["s"]}'
+        return f'CInsert {Z(call["i"])} {I()} {call["s"]}'
     if k == 'append':
-        return f'CAppend {coq_items(w, call["items"])} {call["s"]}'
-    if k == 'q_all_qubits':
-        return 'QAllQubits'
-    if k == 'q_freeze':
-        return 'QFreeze'
-    if k == 'q_len':
-        return 'QLen'
+        return f'CAppend {I()} {call["s"]}'
+    if k == 'range':
+        return f'CInsertIntoRange {I()} {Z(call["s"])} {Z(call["e"])}'
+    if k == 'frontier':
+        return f'CInsertAtFrontier {I()} {Z(call["start"])} {coq_fmap(call["f"] or [])}'
+    if k == 'bremove':
+        return 'CBatchRemove [' + '; '.join(f'({Z(i)}, {coq_op(w, u)})' for i, u in call['rs']) + ']'
+    if k == 'breplace':
+        return 'CBatchReplace [' + '; '.join(f'({Z(i)}, {coq_op(w, u)}, {coq_op(w, n)})' for i, u, n in call['rs']) + ']'
+    if k == 'binto':
+        return 'CBatchInsertInto [' + '; '.join(f'({Z(i)}, {coq_moment(w, us)})' for i, us in call['rs']) + ']'
+    if k == 'binsert':
+        return 'CBatchInsert [' + '; '.join(f'({Z(i)}, {coq_items(w, its)})' for i, its in call['ins']) + ']'
+    if k == 'clear':
+        return f'CClear {ZL(call["q"])} {ZL(call["idx"])}'
+    if k == 'setitem':
+        return f'CSetItem {Z(call["i"])} {coq_moment(w, call["m"])}'
+    if k == 'setslice':
+        return f'CSetSlice {coq_optz(call["a"])} {coq_optz(call["b"])} {coq_moments(w, call["ms"])}'
+    if k == 'delitem':
+        return f'CDelItem {Z(call["i"])}'
+    if k == 'delslice':
+        return f'CDelSlice {coq_optz(call["a"])} {coq_optz(call["b"])}'
+    if k == 'imul':
+        return f'CIMul {Z(call["n"])}'
+    simple = dict(q_all_qubits='QAllQubits', q_freeze='QFreeze', q_len='QLen', q_is_meas='QIsMeasurement',
+                  q_is_param='QIsParameterized', q_pnames='QParameterNames', q_keys='QKeys')
+    if k in simple:
+        return simple[k]
+    if k == 'q_next':
+        return f'QNext {ZL(call["q"])} {Z(call["start"])} {coq_optz(call["maxd"])}'
+    if k == 'q_prev':
+        return f'QPrev {ZL(call["q"])} {coq_optz(call["e"])} {coq_optz(call["maxd"])}'
+    if k == 'q_eam':
+        return f'QEarliestAvailable {coq_op(w, call["op"])} {coq_optz(call["e"])}'
+    if k == 'q_op_at':
+        return f'QOperationAt {Z(call["q"])} {Z(call["i"])}'
     raise AssertionError(k)
 
 
@@ -294,6 +461,12 @@ def coq_res(r):
         return f'RSet {ZL(r[1])}'
     if t == 'moms':
         return 'RMoms ' + coq_zll(r[1])
+    if t == 'bool':
+        return 'RBool ' + ('true' if r[1] else 'false')
+    if t == 'opt':
+        return 'ROpt ' + coq_optz(r[1])
+    if t == 'front':
+        return 'RFront ' + coq_fmap(r[1])
     raise AssertionError(t)
 
 
@@ -309,78 +482,179 @@ class Gen:
         self.rng, self.w = rng, w
         self.next_uid = 1
 
-    def new_op(self):
+    def new_op(self, qubits=None):
         rng = self.rng
         uid = self.next_uid
         self.next_uid += 1
+        pick = (lambda n: rng.sample(range(NQ), n)) if qubits is None else (lambda n: rng.sample(qubits, min(n, len(qubits))))
         r = rng.random()
         if r < 0.55:
-            n = rng.choice([1, 1, 1, 2, 2, 3, 0])
-            spec = dict(q=rng.sample(range(NQ), n), mk=[], ck=[], pn=[], kind='u')
+            spec = dict(q=pick(rng.choice([1, 1, 1, 2, 2, 3, 0])), mk=[], ck=[], pn=[], kind='u')
             if rng.random() < 0.12:
                 spec['pn'] = [rng.randrange(3)]
         elif r < 0.72:
-            n = rng.choice([1, 1, 2])
-            spec = dict(q=rng.sample(range(NQ), n), mk=[rng.randrange(NK)], ck=[], pn=[], kind='meas')
+            spec = dict(q=pick(rng.choice([1, 1, 2])) or pick(1) or [0], mk=[rng.randrange(NK)], ck=[], pn=[], kind='meas')
         elif r < 0.88:
-            n = rng.choice([1, 1, 2, 0])
-            spec = dict(q=rng.sample(range(NQ), n), mk=[], ck=rng.sample(range(NK), rng.choice([1, 1, 2])), pn=[], kind='cc')
+            spec = dict(q=pick(rng.choice([1, 1, 2, 0])), mk=[], ck=rng.sample(range(NK), rng.choice([1, 1, 2])), pn=[], kind='cc')
         else:
-            n = rng.choice([0, 1, 1, 2])
             mk = rng.sample(range(NK), rng.choice([0, 1, 2]))
             ck = [k for k in rng.sample(range(NK), rng.choice([0, 1, 2])) if k not in mk]
-            spec = dict(q=rng.sample(range(NQ), n), mk=mk, ck=ck, pn=[], kind='kop')
+            spec = dict(q=pick(rng.choice([0, 1, 1, 2])), mk=mk, ck=ck, pn=[], kind='kop')
         self.w.add_op(uid, spec)
         return uid
 
-    def new_moment(self):
+    def new_moment_uids(self, avoid=()):
         rng = self.rng
-        used, uids = set(), []
+        used, uids = set(avoid), []
         for _ in range(rng.choice([0, 1, 1, 2, 3])):
-            u = self.new_op()
+            free = [q for q in range(NQ) if q not in used]
+            u = self.new_op(free if rng.random() < 0.7 else None)
             qs = self.w.ops[u]['q']
             if used & set(qs):
                 continue
             used |= set(qs)
             uids.append(u)
-        return {'m': uids}
+        return uids
 
-    def items(self, lo=0, hi=4):
+    def new_moment(self):
+        return {'m': self.new_moment_uids()}
+
+    def items(self, lo=0, hi=4, moments=True):
         rng = self.rng
-        n = rng.randint(lo, hi)
         out = []
-        for _ in range(n):
-            out.append(self.new_moment() if rng.random() < 0.2 else self.new_op())
+        for _ in range(rng.randint(lo, hi)):
+            out.append(self.new_moment() if moments and rng.random() < 0.2 else self.new_op())
         return out
 
-    def index(self):
+    def circuit(self, maxlen=3):
+        return [self.new_moment_uids() for _ in range(self.rng.randint(0, maxlen))]
+
+    def index(self, past=3):
         rng, n = self.rng, len(self.w.c)
         r = rng.random()
         if r < 0.6:
             return rng.randint(0, n)
         if r < 0.8:
             return rng.randint(-n - 2, -1)
-        return rng.randint(n, n + 3)
+        return rng.randint(n, n + past)
+
+    def opt_index(self):
+        return None if self.rng.random() < 0.3 else self.index()
 
     def strategy(self):
         return self.rng.choice(['EARLIEST', 'EARLIEST', 'EARLIEST', 'NEW', 'INLINE', 'NEW_THEN_INLINE', 'LATEST'])
 
+    def existing(self):
+        """(moment index, uid) of a random operation of the circuit, or None."""
+        moms = self.w.moments_uids()
+        cands = [(i, u) for i, m in enumerate(moms) for u in m]
+        return self.rng.choice(cands) if cands else None
+
+    def qubits(self, lo=1, hi=2):
+        return self.rng.sample(range(NQ), self.rng.randint(lo, hi))
+
     def call(self):
-        rng = self.rng
+        rng, n = self.rng, len(self.w.c)
         r = rng.random()
-        if r < 0.30:
+        if r < 0.16:
             return dict(c='insert', i=self.index(), items=self.items(), s=self.strategy())
-        if r < 0.62:
-            return dict(c='append', items=self.items(), s=self.strategy() if rng.random() < 0.4 else 'EARLIEST')
-        if r < 0.68:
+        if r < 0.38:
+            return dict(c='append', items=self.items(), s=self.strategy() if rng.random() < 0.35 else 'EARLIEST', iadd=rng.random() < 0.2)
+        if r < 0.42:
             return dict(c='new', items=self.items(0, 6), s=self.strategy())
-        if r < 0.70:
-            return dict(c='empty')
-        if r < 0.74:
-            return dict(c='copy')
-        if r < 0.77:
-            return dict(c='with_tags')
-        return dict(c=rng.choice(['q_all_qubits', 'q_freeze', 'q_len']))
+        if r < 0.60:        # batch / range / frontier edits
+            k = rng.choice(['range', 'frontier', 'bremove', 'breplace', 'binto', 'binsert', 'binsert'])
+            if k == 'range':
+                s = rng.randint(0, n)
+                e = rng.randint(s, n) if rng.random() < 0.85 else rng.randint(-1, n + 2)
+                return dict(c='range', items=self.items(0, 4, moments=rng.random() < 0.2), s=s, e=e)
+            if k == 'frontier':
+                start = rng.randint(0, n + 1)
+                f = None if rng.random() < 0.4 else [[q, rng.randint(0, start if rng.random() < 0.85 else start + 2)]
+                                                     for q in rng.sample(range(NQ), rng.randint(0, NQ))]
+                return dict(c='frontier', items=self.items(0, 4, moments=False), start=start, f=f)
+            if k == 'bremove':
+                rs = []
+                for _ in range(rng.randint(0, 3)):
+                    e = self.existing()
+                    if e and rng.random() < 0.85:
+                        rs.append([e[0] if rng.random() < 0.8 else e[0] - n, e[1]])
+                    else:
+                        rs.append([self.index(1), self.new_op()])
+                return dict(c='bremove', rs=rs)
+            if k == 'breplace':
+                rs = []
+                for _ in range(rng.randint(0, 3)):
+                    e = self.existing()
+                    if e and rng.random() < 0.85:
+                        q = self.w.spec(e[1])['q']
+                        rs.append([e[0], e[1], self.new_op(q if (q and rng.random() < 0.8) else None)])
+                    else:
+                        rs.append([self.index(1), self.new_op(), self.new_op()])
+                return dict(c='breplace', rs=rs)
+            if k == 'binto':
+                rs = []
+                for _ in range(rng.randint(0, 3)):
+                    i = rng.randint(0, max(n - 1, 0)) if rng.random() < 0.85 else self.index(1)
+                    moms = self.w.moments_uids()
+                    used = {q for u in (moms[i] if 0 <= i < n else []) for q in self.w.spec(u)['q']}
+                    free = [q for q in range(NQ) if q not in used]
+                    rs.append([i, [self.new_op(free if rng.random() < 0.85 else None) for _ in range(rng.randint(0, 2))]])
+                return dict(c='binto', rs=rs)
+            return dict(c='binsert', ins=[[self.index(1), self.items(0, 3)] for _ in range(rng.randint(0, 4))])
+        if r < 0.73:        # delete / slice-assign / clear
+            k = rng.choice(['clear', 'setitem', 'setslice', 'delitem', 'delslice', 'imul'])
+            if k == 'clear':
+                return dict(c='clear', q=self.qubits(0, 3), idx=[self.index(1) for _ in range(rng.randint(0, 3))])
+            if k == 'setitem':
+                return dict(c='setitem', i=self.index(1), m=self.new_moment_uids())
+            if k == 'setslice':
+                return dict(c='setslice', a=self.opt_index(), b=self.opt_index(), ms=self.circuit())
+            if k == 'delitem':
+                return dict(c='delitem', i=self.index(1))
+            if k == 'delslice':
+                return dict(c='delslice', a=self.opt_index(), b=self.opt_index())
+            return dict(c='imul', n=rng.choice([0, 1, 2, 2, 3, -1]))
+        if r < 0.84:        # algebra
+            k = rng.choice(['copy', 'with_tags', 'slice', 'add', 'add', 'radd', 'mul', 'inv', 'transform', 'zip', 'zip', 'concat', 'concat', 'empty'])
+            fz = rng.random() < 0.3
+            if k == 'copy':
+                return dict(c='copy', via=rng.choice(['copy', 'freeze', 'unfreeze']))
+            if k in ('with_tags', 'empty'):
+                return dict(c=k)
+            if k == 'slice':
+                return dict(c='slice', a=self.opt_index(), b=self.opt_index(), frozen=fz)
+            if k == 'add':
+                if rng.random() < 0.5:
+                    return dict(c='add', items=[{'m': m} for m in self.circuit()], circ=True, frozen=fz, ofrozen=rng.random() < 0.3)
+                return dict(c='add', items=self.items(), frozen=fz)
+            if k == 'radd':
+                return dict(c='radd', items=self.items(), frozen=fz)
+            if k == 'mul':
+                return dict(c='mul', n=rng.choice([0, 1, 2, 2, 3, -1]), r=rng.random() < 0.4, frozen=fz)
+            if k == 'inv':
+                return dict(c='inv', frozen=fz)
+            if k == 'transform':
+                src = rng.sample(range(NQ), rng.randint(0, NQ))
+                if rng.random() < 0.8:
+                    dst = list(src)
+                    rng.shuffle(dst)
+                else:
+                    dst = [rng.randrange(NQ + 2) for _ in src]
+                return dict(c='transform', f=[[a, b] for a, b in zip(src, dst)])
+            others = [self.circuit(4) for _ in range(rng.choice([0, 1, 1, 2]))]
+            return dict(c=k, others=others, align=rng.choice(['LEFT', 'LEFT', 'RIGHT', 'FIRST']), astr=rng.random() < 0.3,
+                        frozen=fz, ofrozen=rng.random() < 0.5)
+        k = rng.choice(QUERIES)
+        if k == 'q_next':
+            return dict(c=k, q=self.qubits(), start=rng.randint(-1, n + 2), maxd=rng.choice([None, None, 0, 1, 2, 5, -1]))
+        if k == 'q_prev':
+            return dict(c=k, q=self.qubits(), e=rng.choice([None, rng.randint(-1, n + 2)]), maxd=rng.choice([None, None, 0, 1, 2, 5, -1]))
+        if k == 'q_eam':
+            return dict(c=k, op=self.new_op(), e=rng.choice([None, rng.randint(0, n + 2)]))
+        if k == 'q_op_at':
+            return dict(c=k, q=rng.randrange(NQ), i=rng.randint(-1, n + 1))
+        return dict(c=k)
 
 
 # ---- spec-level oracles on the real code ---------------------------------------------------------------
@@ -396,32 +670,318 @@ def oracle_wf(w):
     return None
 
 
-def expected_multiset(before, call, result):
-    """Multiset of uids the property prescribes after the call (None = not prescribed / any)."""
-    k = call['c']
-    ok = result[0] != 'err'
-    b = collections.Counter(before)
-    if k in ('empty',):
-        return collections.Counter(), None
-    if k == 'new':
-        return (collections.Counter(item_uids(call['items'])), None) if ok else (b, None)
-    if k in ('insert', 'append'):
-        full = b + collections.Counter(item_uids(call['items']))
-        return (full, None) if ok else (full, b)       # on failure: between old and old + inserted
-    return b, None
+def py_index(i, n):
+    j = i + n if i < 0 else i
+    return j if 0 <= j < n else None
 
 
-def oracle_multiset(before, after, call, result):
-    exp, lower = expected_multiset(before, call, result)
-    a = collections.Counter(after)
-    if lower is None:
-        if a != exp:
-            lost = sorted((exp - a).elements())
-            dup = sorted((a - exp).elements())
-            return f'operations lost {lost} / duplicated or invented {dup}'
+def slice_rng(a, b, n):
+    s, e, _ = slice(a, b).indices(n)
+    return s, max(s, e)
+
+
+def clamp(i, n):
+    return max(min(i if i >= 0 else n + i, n), 0)
+
+
+class Spec:
+    """What the property text prescribes for one call, computed from the call and the moments before it:
+    allowed exception, expected multiset, and the order prescription."""
+
+    def __init__(self, w, call, before):
+        self.w, self.call, self.before = w, call, before
+        self.n = len(before)
+
+    def conflicts_moment(self, m, u):
+        return any(conflict(self.w, x, u) for x in m)
+
+    def overlaps(self, uids):
+        seen = set()
+        for u in uids:
+            q = set(self.w.spec(u)['q'])
+            if seen & q:
+                return True
+            seen |= q
+        return False
+
+    # -- which exception (if any) the documentation allows / demands ------------------------------------
+    def expected_error(self):
+        c, k, n, before = self.call, self.call['c'], self.n, self.before
+        if k == 'range':
+            return None if 0 <= c['s'] <= c['e'] <= n else 'IndexError'
+        if k == 'frontier':
+            f = dict(map(tuple, c['f'] or []))
+            qs = {q for u in item_uids(c['items']) for q in self.w.spec(u)['q']}
+            return 'ValueError' if any(f.get(q, 0) > c['start'] for q in qs) else None
+        if k in ('bremove', 'breplace', 'binto'):
+            cur = [list(m) for m in before]
+            for r in c['rs']:
+                j = py_index(r[0], n)
+                if j is None:
+                    return 'IndexError'
+                if k == 'binto':
+                    if self.overlaps(cur[j] + r[1]):
+                        return 'ValueError'
+                    cur[j] = cur[j] + r[1]
+                    continue
+                if r[1] not in cur[j]:
+                    return 'ValueError'
+                if k == 'bremove':
+                    cur[j] = [u for u in cur[j] if u != r[1]]
+                else:
+                    cur[j] = [r[2] if u == r[1] else u for u in cur[j]]
+                    if self.overlaps(cur[j]):
+                        return 'ValueError'
+            return None
+        if k in ('setitem', 'delitem'):
+            return None if py_index(c['i'], n) is not None else 'IndexError'
+        if k == 'inv':
+            return None if all(spec_invertible(self.w.spec(u)) for m in before for u in m) else 'TypeError'
+        if k == 'transform':
+            f = dict(map(tuple, c['f']))
+            for m in before:
+                seen = set()
+                for u in m:
+                    q = [f.get(x, x) for x in self.w.spec(u)['q']]
+                    if len(set(q)) != len(q) or seen & set(q):
+                        return 'ValueError'
+                    seen |= set(q)
+            return None
+        if k == 'zip':
+            cs = [before] + c['others']
+            N = max(len(x) for x in cs)
+            for j in range(N):
+                row = []
+                for x in cs:
+                    jj = j if c['align'] == 'LEFT' else len(x) - N + j
+                    if 0 <= jj < len(x):
+                        row += x[jj]
+                if self.overlaps(row):
+                    return 'ValueError'
+            return None
+        if k in ('q_next', 'q_prev'):
+            return 'ValueError' if (c['maxd'] is not None and c['maxd'] < 0) else None
         return None
-    if (lower - a) or (a - exp):
-        return f'after a failing call: lost {sorted((lower - a).elements())}, extra {sorted((a - exp).elements())}'
+
+    # -- expected multiset of uids after a successful call ------------------------------------------------
+    def expected_uids(self):
+        c, k, n, before = self.call, self.call['c'], self.n, self.before
+        flat = [u for m in before for u in m]
+        C = collections.Counter
+        if k == 'empty':
+            return C()
+        if k == 'new':
+            return C(item_uids(c['items']))
+        if k == 'slice':
+            s, e = slice_rng(c['a'], c['b'], n)
+            return C(u for m in before[s:e] for u in m)
+        if k in ('add', 'radd', 'insert', 'append', 'range', 'frontier'):
+            return C(flat) + C(item_uids(c['items']))
+        if k in ('mul', 'imul'):
+            return C(flat * max(c['n'], 0))
+        if k == 'inv':
+            return C(-u for u in flat)
+        if k in ('zip', 'concat'):
+            return C(flat) + C(u for o in c['others'] for m in o for u in m)
+        if k == 'bremove':
+            return C(flat) - C(u for _, u in c['rs'])
+        if k == 'breplace':
+            return C(flat) - C(u for _, u, _ in c['rs']) + C(x for _, _, x in c['rs'])
+        if k == 'binto':
+            return C(flat) + C(u for _, us in c['rs'] for u in us)
+        if k == 'binsert':
+            return C(flat) + C(u for _, its in c['ins'] for u in item_uids(its))
+        if k == 'clear':
+            qs = set(c['q'])
+            idx = {i for i in c['idx'] if 0 <= i < n}
+            return C(u for i, m in enumerate(before) for u in m if not (i in idx and qs & set(self.w.spec(u)['q'])))
+        if k == 'setitem':
+            j = py_index(c['i'], n)
+            return C(u for i, m in enumerate(before) for u in m if i != j) + C(c['m'])
+        if k == 'delitem':
+            j = py_index(c['i'], n)
+            return C(u for i, m in enumerate(before) for u in m if i != j)
+        if k in ('setslice', 'delslice'):
+            s, e = slice_rng(c['a'], c['b'], n)
+            return C(u for i, m in enumerate(before) for u in m if not s <= i < e) + C(u for m in c.get('ms', []) for u in m)
+        return C(flat)
+
+    def inserted(self):
+        c, k = self.call, self.call['c']
+        if k in ('new', 'add', 'radd', 'insert', 'append', 'range', 'frontier'):
+            return item_uids(c['items'])
+        return []
+
+
+def conflict(w, x, y):
+    a, b = w.spec(x), w.spec(y)
+    return bool(set(a['q']) & set(b['q']) or set(a['mk']) & set(b['mk']) or set(a['mk']) & set(b['ck']) or set(a['ck']) & set(b['mk']))
+
+
+def positions(moms):
+    pos, k = {}, 0
+    for i, m in enumerate(moms):
+        for u in m:
+            pos[u] = (k, i)
+            k += 1
+    return pos
+
+
+def oracle_order(w, call, before, after, res):
+    """The order clauses of the property text, for operations that conflict on a qubit or a key.
+    Returns a description of the first violated clause, or None."""
+    k = call['c']
+    if res[0] == 'err':
+        return None
+    fb = [u for m in before for u in m]
+    fa = [u for m in after for u in m]
+    if len(set(fb)) != len(fb) or len(set(fa)) != len(fa):
+        return None          # repeated operations: positions are ambiguous, clause not evaluated
+    pb, pa = positions(before), positions(after)
+    n = len(before)
+
+    def before_in_after(x, y):
+        return pa[x][0] < pa[y][0]
+
+    def check(pairs, clause):
+        for x, y in pairs:
+            if x in pa and y in pa and conflict(w, x, y) and not before_in_after(x, y):
+                return f'{clause}: operation {x} {w.spec(x)} must come before {y} {w.spec(y)} but ends up in moment {pa[x][1]} / position {pa[x][0]}, after moment {pa[y][1]} / position {pa[y][0]}'
+        return None
+    surv = [u for u in fb if u in pa]
+    # (a) existing ones among themselves
+    if k == 'inv':
+        inv_pairs = [(-surv_y, -surv_x) for i, surv_x in enumerate(fb) for surv_y in fb[i + 1:]]
+        return check([(a, b) for a, b in inv_pairs], 'inverse reverses the order')
+    p = check([(x, y) for i, x in enumerate(surv) for y in surv[i + 1:]], 'existing operations among themselves')
+    if p:
+        return p
+    ins = []
+    if k in ('new', 'add', 'radd', 'insert', 'append', 'range', 'frontier'):
+        ins = item_uids(call['items'])
+    # (b) inserted ones among themselves
+    p = check([(x, y) for i, x in enumerate(ins) for y in ins[i + 1:]], 'inserted operations among themselves')
+    if p:
+        return p
+    lo = hi = None           # inserted after every existing op in moments < lo, before every one in moments >= hi
+    exception = False
+    if k in ('insert',):
+        lo = hi = clamp(call['i'], n)
+        exception = call['s'] == 'EARLIEST' and lo < n and len(call['items']) > 1
+    elif k in ('append', 'add'):
+        lo = hi = n
+    elif k == 'radd':
+        lo = hi = 0
+    elif k == 'range':
+        lo, hi = call['s'], call['e']
+        exception = len(ins) > 1 and hi < n
+    elif k == 'frontier':          # inline at the frontier: the moment `start` itself is shared, later moments come after
+        lo, hi = call['start'], call['start'] + 1
+    if lo is not None:
+        p = check([(e, x) for e in fb if pb[e][1] < lo for x in ins], 'inserted operations come after everything before the insertion point')
+        if p:
+            return p
+        if not exception:
+            p = check([(x, e) for e in fb if pb[e][1] >= hi for x in ins], 'inserted operations come before everything after the insertion point')
+            if p:
+                return p
+    if k == 'binsert':
+        order = sorted(range(len(call['ins'])), key=lambda j: call['ins'][j][0])
+        groups = {}
+        for j in order:
+            groups.setdefault(call['ins'][j][0], []).append(call['ins'][j][1])
+        seq = []
+        for i in sorted(groups):
+            trees = list(reversed(groups[i]))
+            us = [u for t in trees for u in item_uids(t)]
+            kk = clamp(i, n)
+            p = check([(x, y) for a, x in enumerate(us) for y in us[a + 1:]], 'batch_insert: operations inserted at one index among themselves')
+            p = p or check([(e, x) for e in fb if pb[e][1] < kk for x in us], 'batch_insert: inserted operations come after everything before their index')
+            if not (kk < n and sum(len(t) for t in trees) > 1):
+                p = p or check([(x, e) for e in fb if pb[e][1] >= kk for x in us], 'batch_insert: inserted operations come before everything after their index')
+            p = p or check([(y, x) for y in seq for x in us], 'batch_insert: insertions at smaller indices come first')
+            if p:
+                return p
+            seq += us
+    if k == 'binto':
+        for i, us in call['rs']:
+            j = py_index(i, n)
+            p = check([(e, x) for e in fb if pb[e][1] < j for x in us], 'batch_insert_into: after everything in earlier moments') or \
+                check([(x, e) for e in fb if pb[e][1] > j for x in us], 'batch_insert_into: before everything in later moments')
+            if p:
+                return p
+    if k in ('zip', 'concat'):
+        others = call['others']
+        for o in others:
+            fo = [u for m in o for u in m]
+            p = check([(x, y) for a, x in enumerate(fo) for y in fo[a + 1:]], f'{k}: operations of one operand among themselves')
+            if p:
+                return p
+        if k == 'concat':
+            seqs = [fb] + [[u for m in o for u in m] for o in others]
+            for a in range(len(seqs)):
+                for b in range(a + 1, len(seqs)):
+                    p = check([(x, y) for x in seqs[a] for y in seqs[b]], 'concat_ragged: operations of an earlier circuit come before conflicting operations of a later one')
+                    if p:
+                        return p
+        else:
+            cs = [before] + others
+            N = max(len(x) for x in cs)
+            al = lambda x, j: j if call['align'] == 'LEFT' else j + N - len(x)
+            tagged = [(al(x, j), u) for x in cs for j, m in enumerate(x) for u in m]
+            p = check([(x, y) for ix, x in tagged for iy, y in tagged if ix < iy], 'zip: moment k of the result holds moment k of every operand')
+            if p:
+                return p
+    return None
+
+
+def oracle_placement(w, call, before, after, res):
+    """Where a single operation / a single Moment lands, per documented strategy, and the returned index."""
+    k = call['c']
+    if k not in ('insert', 'append') or len(call['items']) != 1 or res[0] == 'err':
+        return None
+    it = call['items'][0]
+    n = len(before)
+    kk = clamp(call['i'], n) if k == 'insert' else n
+    s = call['s']
+    ret = res[1] if k == 'insert' else None
+
+    def expect(moms, r, *alts):
+        for m2, r2 in ((moms, r),) + alts:
+            if after == m2 and (ret is None or ret == r2):
+                return None
+        return (f'{s} insert of {it} at {kk} into {before}: expected {moms} returning {r}'
+                + (f' (or {alts[0][0]} returning {alts[0][1]})' if alts else '') + f', got {after} returning {ret}')
+    newm = lambda u: before[:kk] + [[u]] + before[kk:]
+    join = lambda p, u: before[:p] + [before[p] + [u]] + before[p + 1:]
+    if isinstance(it, dict):
+        return expect(before[:kk] + [it['m']] + before[kk:], kk + 1)
+    u = it
+    blocked = lambda i: any(conflict(w, x, u) for x in before[i])
+    if s in ('NEW', 'NEW_THEN_INLINE'):
+        return expect(newm(u), kk + 1)
+    if s == 'INLINE':
+        if kk > 0 and not blocked(kk - 1):
+            return expect(join(kk - 1, u), kk)
+        return expect(newm(u), kk + 1)
+    if s == 'EARLIEST':
+        j = max([i for i in range(kk) if blocked(i)], default=-1)
+        p = j + 1
+        if p < kk:
+            return expect(join(p, u), kk)
+        if kk < n and not blocked(kk):
+            # the strategy text says "a new moment at the desired location"; the property's own exception
+            # concedes that EARLIEST may share the moment at the insertion point: both accepted
+            return expect(newm(u), kk + 1, (join(kk, u), kk + 1))
+        return expect(newm(u), kk + 1)
+    if s == 'LATEST':
+        if kk == n:
+            return expect(newm(u), kk + 1)
+        j = min([i for i in range(kk, n) if blocked(i)], default=n)
+        p = j - 1
+        if p < kk:
+            return expect(newm(u), kk + 1)
+        return expect(join(p, u), p + 1)
     return None
 
 
@@ -466,7 +1026,7 @@ def oracle_queries(w, rng, heavy=False):
     cmp('reachable_frontier_from', c.reachable_frontier_from(start), f.reachable_frontier_from(start))
     end = {q: s + rng.randint(0, 3) for q, s in start.items() if rng.random() < 0.7}
     cmp('findall_operations_between', c.findall_operations_between(start, end), f.findall_operations_between(start, end))
-    if heavy and len(c.all_qubits()) <= 4 and cirq.has_unitary(f):
+    if heavy and len(c.all_qubits()) <= 4 and n <= 12 and cirq.has_unitary(f):
         import numpy as np
         order = sorted(f.all_qubits())
         a, b = c.unitary(qubit_order=order), f.unitary(qubit_order=order)
@@ -476,39 +1036,63 @@ def oracle_queries(w, rng, heavy=False):
 
 
 # ---- one history ---------------------------------------------------------------------------------------
-def run_history(w, calls, rng, ctx=None, gen=None, n_calls=0):
-    """Executes given calls (or draws n_calls with gen).  Returns (calls, trace, problems)."""
-    out_calls, trace, problems = [], [], []
+def run_history(w, calls, rng=None, gen=None, n_calls=0):
+    """Executes given calls (or draws n_calls with gen).  Returns (calls, trace, problems);
+    a problem is (step, oracle kind, description)."""
+    out_calls, trace, problems, rendered = [], [], [], []
+    w.rendered = rendered
     it = iter(calls) if gen is None else None
     for step in range(n_calls if gen is not None else len(calls)):
         call = gen.call() if gen is not None else next(it)
-        before = [u for m in w.moments_uids() for u in m]
+        before = w.moments_uids()
+        spec = Spec(w, call, before)
+        want = spec.expected_error()
+        rendered.append(coq_call(w, call))
         res = exec_call(w, call)
         moms = w.moments_uids()
-        after = [u for m in moms for u in m]
         out_calls.append(call)
         trace.append((res, moms))
+        add = lambda kind, what: problems.append((step, kind, what))
         p = oracle_wf(w)
         if p:
-            problems.append((step, 'wf', p))
-        p = oracle_multiset(before, after, call, res)
+            add('wf', p)
+        got = res[1] if res[0] == 'err' else None
+        if want != got:
+            add('raises', f'{call["c"]} raised {got}, the documentation prescribes {want}')
+        flat_b = collections.Counter(u for m in before for u in m)
+        flat_a = collections.Counter(u for m in moms for u in m)
+        if got is None:
+            exp = spec.expected_uids()
+            if flat_a != exp:
+                add('multiset', f'operations lost {sorted((exp - flat_a).elements())} / duplicated or invented {sorted((flat_a - exp).elements())}')
+        elif call['c'] in ATOMIC or call['c'] in REPLACING or want is not None:
+            if moms != before:
+                add('atomic', f'{call["c"]} raised {got} but changed the circuit from {before} to {moms}')
+        else:       # an undocumented exception: nothing may be lost or invented
+            full = flat_b + collections.Counter(spec.inserted())
+            if (flat_b - flat_a) or (flat_a - full):
+                add('multiset', f'after the failing call: lost {sorted((flat_b - flat_a).elements())}, extra {sorted((flat_a - full).elements())}')
+        p = oracle_order(w, call, before, moms, res)
         if p:
-            problems.append((step, 'multiset', p))
-        if call['c'].startswith('q_'):
-            for p in oracle_queries(w, rng):
-                problems.append((step, 'query', p))
-    for p in oracle_queries(w, rng, heavy=True):
+            add('order', p)
+        p = oracle_placement(w, call, before, moms, res)
+        if p:
+            add('placement', p)
+        if call['c'] in QUERIES or (call['c'] not in BASIC and step % 2 == 0):
+            for p in oracle_queries(w, random.Random(step * 7919 + 13)):      # deterministic per step: shrinking stays reproducible
+                add('query', p)
+    for p in oracle_queries(w, random.Random(len(out_calls)), heavy=True):
         problems.append((len(out_calls) - 1, 'query', p))
     return out_calls, trace, problems
 
 
 def history_doc(w, calls):
-    return dict(kind='history', ops={str(u): s for u, s in w.ops.items()}, calls=calls)
+    return dict(kind='history', ops={str(u): s for u, s in w.ops0.items()}, calls=calls)
 
 
 def nontrivial(w, calls, trace):
-    """>= 3 mutating calls, >= 2 operations sharing a qubit or key, a moment with >= 2 operations."""
-    muts = sum(1 for c in calls if not c['c'].startswith('q_'))
+    """>= 3 mutating calls, >= 3 operations left, a moment with >= 2 operations."""
+    muts = sum(1 for c in calls if c['c'] not in QUERIES)
     moms = trace[-1][1] if trace else []
     return muts >= 3 and sum(len(m) for m in moms) >= 3 and any(len(m) >= 2 for m in moms)
 
@@ -518,39 +1102,72 @@ def run(ctx):
     cirq = env.import_cirq()
     ctx.rule = ('random edit histories of 1-40 public calls starting from Circuit(); operations on 5 qubits and 3 keys '
                 '(plain, parameterized, measurement, classically controlled, multi-key, zero-qubit), whole Moments, empty moments, '
-                'all five strategies, indices negative/past the end, queries interleaved; after every call the moments (uid lists), '
-                'return value / exception class are compared with the Gallina model; non-trivial = >= 3 mutating calls, >= 3 operations '
-                'left and a moment with >= 2 operations; distinct by canonical history')
+                'all five strategies, indices negative/past the end, batch/range/frontier edits, slice assignment, deletion, clearing, '
+                '+, *, **-1, zip, concat_ragged, transform_qubits, freeze/unfreeze, with_tags, queries interleaved; after every call the '
+                'moments (uid lists), return value / exception class are compared with the Gallina model; non-trivial = >= 3 mutating '
+                'calls, >= 3 operations left and a moment with >= 2 operations; distinct by canonical history')
     ctx.assumptions += ['vf/checks/c05.py adapters: op vocabulary (uid-carrying gates/operations), canonicalisation of results, Gallina literal printing',
                         'spec-level oracles in vf/checks/c05.py are the reading of the property text used to classify disagreements']
     ctx.set_obligations(coq.compile_props('C05'))
-    n = 300 if ctx.tier == 'quick' else 6000
-    history_stream(ctx, cirq, n)
-
-
-def history_stream(ctx, cirq, n, shard=150):
     vocab = Vocab(cirq)
+    witness_stream(ctx, cirq, vocab)
+    n = 360 if ctx.tier == 'quick' else 8000
+    history_stream(ctx, cirq, vocab, n)
+
+
+# histories the Coq development uses as witnesses of refuted statements: replayed on the implementation
+WITNESSES = [
+    dict(name='with_tags_append_moment',
+         ops={'1': dict(q=[0], mk=[], ck=[], pn=[], kind='u'), '2': dict(q=[0], mk=[], ck=[], pn=[], kind='u')},
+         calls=[dict(c='new', items=[1], s='EARLIEST'), dict(c='with_tags'), dict(c='append', items=[{'m': [2]}], s='EARLIEST')]),
+    dict(name='concat_ragged_control_before_measurement',
+         ops={'1': dict(q=[0], mk=[], ck=[], pn=[], kind='u'), '2': dict(q=[0], mk=[0], ck=[], pn=[], kind='meas'),
+              '3': dict(q=[1], mk=[], ck=[0], pn=[], kind='cc')},
+         calls=[dict(c='new', items=[{'m': [1]}, {'m': [2]}], s='EARLIEST'), dict(c='concat', others=[[[3]]], align='LEFT')]),
+]
+
+
+def witness_stream(ctx, cirq, vocab):
+    import random
+    for wdoc in WITNESSES:
+        doc = dict(kind='history', ops=wdoc['ops'], calls=wdoc['calls'])
+        w = World(cirq, vocab, doc['ops'])
+        calls, trace, problems = run_history(w, doc['calls'], random.Random(0))
+        ctx.count('witness', doc, True, sample=dict(name=wdoc['name'], final_moments=trace[-1][1]))
+        for (step, kind, what) in problems:
+            report_problem(ctx, cirq, vocab, w, calls, step, kind, what)
+
+
+def history_stream(ctx, cirq, vocab, n, shard=120):
     hists = []
     for i in range(n):
         w = World(cirq, vocab)
         gen = Gen(ctx.rng, w)
         ncalls = ctx.rng.choice([1, 2, 3, 5, 8, 12, 20, 30, 40])
-        calls, trace, problems = run_history(w, None, ctx.rng, ctx, gen, ncalls)
+        calls, trace, problems = run_history(w, None, ctx.rng, gen, ncalls)
         hists.append((w, calls, trace))
         ctx.count('history', history_doc(w, calls), nontrivial(w, calls, trace),
                   sample=dict(calls=calls[:4], final_moments=trace[-1][1]))
-        for c in calls:
+        for c, (r, _) in zip(calls, trace):
             ctx.streams['call:' + c['c']] += 1
+            if r[0] == 'err':
+                ctx.streams['raised:' + r[1]] += 1
+            if 's' in c and isinstance(c['s'], str):
+                ctx.streams['strategy:' + c['s']] += 1
+        seen = set()
         for (step, kind, what) in problems:
+            if kind in seen:
+                continue
+            seen.add(kind)
             report_problem(ctx, cirq, vocab, w, calls, step, kind, what)
     for s in range(0, len(hists), shard):
         part = hists[s:s + shard]
         text = ('From Coq Require Import ZArith List Bool.\nFrom VF Require Import Circ.Moments Circ.Placement Circ.Insert '
-                'Circ.History Circ.Compare.\nImport ListNotations.\nOpen Scope Z_scope.\n')
+                'Circ.BatchEdit Circ.History Circ.Compare.\nImport ListNotations.\nOpen Scope Z_scope.\n')
         text += 'Definition hists : list (list call * list (res * list (list Z))) := [\n'
         rows = []
         for (w, calls, trace) in part:
-            cs = '[' + ';\n   '.join(coq_call(w, c) for c in calls) + ']'
+            cs = '[' + ';\n   '.join(w.rendered) + ']'
             ts = '[' + ';\n   '.join(f'({coq_res(r)}, {coq_zll(m)})' for r, m in trace) + ']'
             rows.append(f'(({cs}),\n  ({ts}))')
         text += ';\n'.join(rows) + '].\n'
@@ -569,26 +1186,32 @@ def report_problem(ctx, cirq, vocab, w, calls, step, kind, what):
     """A spec-level oracle failed on the real code: minimise and report."""
     doc = history_doc(w, calls[:step + 1])
     doc = shrink(cirq, vocab, doc, kind)
+    probs = [p for p in replay_doc(cirq, vocab, doc) if p[1] == kind]
+    if probs:
+        what = probs[0][2]
     sig = signature(doc, kind)
     ctx.violation(sig, f'{kind}: {what}; minimised history: {json.dumps(doc["calls"])}', dict(doc, oracle=kind))
 
 
 def spec_search(ctx, cirq, vocab, w, calls, step):
-    """Model and implementation disagree: decide on the real code whether the property's own statement fails."""
+    """Model and implementation disagree: decide on the real code whether the property's own statement fails
+    (on the disagreeing history; the oracles have already run on it, so report whatever they find on its prefix)."""
     doc = history_doc(w, calls[:step + 1])
-    probs = replay_doc(cirq, vocab, doc)
-    for (st, kind, what) in probs:
+    for (st, kind, what) in replay_doc(cirq, vocab, doc):
         report_problem(ctx, cirq, vocab, w, calls, st, kind, what)
 
 
 def replay_doc(cirq, vocab, doc, seed=0):
     import random
-    w = World(cirq, vocab, doc['ops'])
     try:
+        w = World(cirq, vocab, doc['ops'])
         _, _, problems = run_history(w, doc['calls'], random.Random(seed))
     except Exception as e:      # a shrunk history may be ill-formed for the harness itself
         return [(-1, 'harness', repr(e))]
     return problems
+
+
+LIST_FIELDS = ('items', 'rs', 'ins', 'others', 'ms', 'idx', 'q', 'f')
 
 
 def shrink(cirq, vocab, doc, kind):
@@ -598,32 +1221,61 @@ def shrink(cirq, vocab, doc, kind):
     if not fails(doc):
         return doc
     calls = list(doc['calls'])
-    changed = True
-    while changed:
-        changed = False
-        for i in range(len(calls) - 1, -1, -1):
-            cand = dict(doc, calls=calls[:i] + calls[i + 1:])
-            if fails(cand):
-                calls = cand['calls']
-                changed = True
-        for i, c in enumerate(calls):
-            its = c.get('items')
-            if not its:
-                continue
-            for j in range(len(its) - 1, -1, -1):
-                c2 = dict(c, items=its[:j] + its[j + 1:])
-                cand = dict(doc, calls=calls[:i] + [c2] + calls[i + 1:])
-                if fails(cand):
-                    calls = cand['calls']
-                    its = c2['items']
-                    changed = True
+    # prefix compression: replace calls[0..i] by one constructor call building the moments they produced
+    for i in range(len(calls) - 2, -1, -1):
+        try:
+            w = World(cirq, vocab, doc['ops'])
+            for c in calls[:i + 1]:
+                exec_call(w, c)
+            head = dict(c='new', items=[{'m': m} for m in w.moments_uids()], s='EARLIEST')
+            cand = dict(doc, ops={str(u): sp for u, sp in w.ops.items()}, calls=[head] + calls[i + 1:])
+        except Exception:
+            continue
+        if fails(cand):
+            doc, calls = cand, cand['calls']
+            break
+    changed, rounds = True, 0
+    while changed and rounds < 6:
+        changed, rounds = False, rounds + 1
+        for i in range(len(calls) - 2, -1, -1):          # the last call is the failing one
+            cand = calls[:i] + calls[i + 1:]
+            if fails(dict(doc, calls=cand)):
+                calls, changed = cand, True
+        for i in range(len(calls)):
+            for fld in LIST_FIELDS:
+                j = len(calls[i].get(fld) or []) - 1
+                while j >= 0:
+                    xs = calls[i][fld]
+                    c2 = dict(calls[i], **{fld: xs[:j] + xs[j + 1:]})
+                    cand = calls[:i] + [c2] + calls[i + 1:]
+                    if fails(dict(doc, calls=cand)):
+                        calls, changed = cand, True
+                    j -= 1
+            if calls[i].get('frozen') or calls[i].get('ofrozen') or calls[i].get('astr'):
+                c2 = dict(calls[i], frozen=False, ofrozen=False, astr=False)
+                cand = calls[:i] + [c2] + calls[i + 1:]
+                if fails(dict(doc, calls=cand)):
+                    calls, changed = cand, True
     used = set()
-    for c in calls:
-        used |= {abs(u) for u in item_uids(c.get('items', []))}
+
+    def walk(x):
+        if isinstance(x, dict):
+            for v in x.values():
+                walk(v)
+        elif isinstance(x, list):
+            for v in x:
+                walk(v)
+        elif isinstance(x, int):
+            used.add(abs(x))
+    walk(calls)
     return dict(doc, calls=calls, ops={u: s for u, s in doc['ops'].items() if int(u) in used})
 
 
 def signature(doc, kind):
+    """oracle kind + the non-basic calls the minimised history needs (or the whole call sequence if it needs none)."""
+    special = sorted({c['c'] for c in doc['calls'] if c['c'] not in BASIC})
+    if special:
+        return f'{kind}:' + '+'.join(special)
     return f'{kind}:' + '>'.join(c['c'] + (':' + c['s'] if 's' in c else '') for c in doc['calls'])
 
 
